@@ -9,7 +9,7 @@ The docstring TEXT is concrete here (regex/docutils code does not run symbolical
 import copy
 import re
 
-from lib.hx import harness, pick, pickb, done, tier, PART, note, known
+from lib.hx import harness, pick, pickb, done, tier, PART, note, known, sample
 
 PROPERTY = "C16"
 LEVEL = "model_checking"
@@ -68,6 +68,7 @@ MSG = re.compile(r"^([^:]+):(\d+|\?\?\?): (.*)$", re.DOTALL)
 
 def warnings_for(fmt, prob, kind, layout, k, raw):
     src, pline, first, last = gen(fmt, prob, kind, layout, k, raw)
+    sample(docformat=fmt, problem=prob, planted_line=pline, source=src)
     opts = copy.copy(PJ.OPTS)
     opts.docformat = fmt
     s = PJ.build({"m": (src, False)}, opts=opts)
